@@ -110,7 +110,10 @@ def _worker(job):
     prop, profile, seed, tier, gopts, mopts = job
     try:
         plan = gen.gen(profile, seed, tier, gopts)
-        res = check_plan(plan, mopts)
+        if profile == 'C06':
+            res = check_c06(plan, mopts)
+        else:
+            res = check_plan(plan, mopts)
         res['plan_hash'] = hashlib.sha1(json.dumps(plan, sort_keys=True).encode()).hexdigest()[:16]
         res['nops'] = sum(len(e['ops']) for e in plan['epochs'])
         return res
@@ -134,3 +137,74 @@ def campaign(prop, profile, base_seed, tier, budget_s, max_runs, gopts=None, mop
     with multiprocessing.Pool(workers, _worker_init) as pool:
         for res in pool.imap_unordered(_worker, jobs(), chunksize=4):
             yield res
+
+
+# ---------------------------------------------------------------- C06
+ERRNOS = {
+    'openat': ['EMFILE', 'ENOSPC', 'EACCES'],
+    'write': ['ENOSPC', 'EIO', 'EINTR'],
+    'close': ['EIO', 'EINTR'],
+    'renameat': ['EIO', 'ENOSPC'],
+    'unlinkat': ['EIO'],
+}
+
+
+def c06_variants(plan, hist):
+    """all single crash points and single failing calls after the MARK op"""
+    calls = []
+    seen_mark = False
+    for r in hist:
+        if r.get('k') == 'mark':
+            seen_mark = True
+        elif r.get('k') == 'epoch' and r.get('n', 0) > 0:
+            break
+        elif seen_mark and r.get('k') == 'sys':
+            calls.append(r['call'])
+    out = []
+    import copy
+    for k, call in enumerate(calls):
+        for kind, en in [('crash', 'EIO')] + [('fail', e) for e in ERRNOS.get(call, ['EIO'])] + \
+                ([('short', 'EIO')] if call == 'write' else []):
+            p = copy.deepcopy(plan)
+            ops = p['epochs'][0]['ops']
+            for i, o in enumerate(ops):
+                if o['op'] == 'mark':
+                    ops[i] = {'t': o['t'], 'op': 'spoolfault', 'k': k, 'kind': kind, 'errno': en}
+                    break
+            p['variant'] = {'k': k, 'call': call, 'kind': kind, 'errno': en}
+            out.append(p)
+    return calls, out
+
+
+def check_c06(plan, mopts=None):
+    """one evaluation of C06 = one history with ALL its crash/fault positions"""
+    hist, lw, logs, rc = sim.execute(plan)
+    base = check_plan(plan, mopts)
+    if base.get('machinery'):
+        return base
+    calls, variants = c06_variants(plan, hist)
+    res = base
+    res['variants'] = len(variants)
+    res['calls'] = len(calls)
+    res['viol'] = [dict(v, variant=None) for v in base['viol']]
+    nfired = 0
+    for vp in variants:
+        r = check_plan(vp, mopts)
+        if r.get('machinery'):
+            res['machinery'] = r['machinery']
+            continue
+        st = r['stats']
+        fired = st.get('spoolfaults_fired', 0) + sum(v for k, v in st.items() if k.startswith('crash_at_') and k != 'crash_at_event')
+        nfired += 1 if fired else 0
+        for k, x in st.items():
+            if k.startswith('crash_at_') or k in ('spoolfaults_fired', 'crashes', 'restarts', 'clean_shutdowns'):
+                res['stats'][k] = res['stats'].get(k, 0) + x
+        for k, x in r['probes'].items():
+            res['probes'][k] = res['probes'].get(k, 0) + x
+        res['simsec'] += r['simsec']
+        for v in r['viol']:
+            v = dict(v, variant=vp['variant'])
+            v['sig'] = v['sig'] + '@' + vp['variant']['kind'] + ':' + vp['variant']['call']
+            res['viol'].append(v)
+    res['variants_fired'] = nfired
+    return res
